@@ -1728,3 +1728,240 @@ pub fn exec_locks(lines: &[String], out: &mut Out, scratch: &Path, out_dir: &Pat
     out.line("traces", &format!("{} distinct programs", programs.len()));
     let _ = std::fs::remove_dir_all(scratch);
 }
+
+
+// ------------------------------------------------------------------------------------------------- suite X
+
+fn fresh_ctx(main: Inst, twin: Inst, rt: &Arc<tokio::runtime::Runtime>, scratch: &Path, n_inst: u64, case: &str) -> Ctx {
+    Ctx {
+        main, twin, twin_mode: 0, rt: rt.clone(), scratch: scratch.to_path_buf(), n_inst, case: case.to_string(),
+        history: Vec::new(), labels: BTreeMap::new(), known_addrs: BTreeSet::new(), known_hashes: Vec::new(),
+        receipts: BTreeMap::new(), insc_of: BTreeMap::new(), height: None, chain_id: v::CONFIG.read().chain_id,
+        dup_blocks: BTreeSet::new(), kinds: BTreeMap::new(), inscribed_len: BTreeMap::new(),
+    }
+}
+
+/// indexer ops of one case (reads and deliberate protocol violations dropped)
+fn indexer_lines(lines: &[String]) -> Vec<String> {
+    lines.iter().filter(|l| !l.starts_with("read") && !l.starts_with("bad") && !l.starts_with("golden")).cloned().collect()
+}
+
+/// Child process of the crash suite: replay `lines[..upto]` on a fresh directory, arm the failpoint at persistent
+/// write `crash_at` (counted from the start of `lines[upto]`), run that op. The process aborts inside the op.
+pub fn crash_child(lines: &[String], upto: usize, crash_at: u64, dir: &Path) {
+    eng::configure("regtest", true);
+    let rt = eng::runtime();
+    let _ = std::fs::remove_dir_all(dir);
+    let main = Inst::open(dir, rt.clone());
+    let twin = Inst::open(&dir.with_extension("twin"), rt.clone());
+    let mut ctx = fresh_ctx(main, twin, &rt, dir, 0, "child");
+    let mut sink = Out::new(&dir.with_extension("out"), "X.child");
+    for (i, l) in lines.iter().enumerate() {
+        let op = l.split(' ').next().unwrap_or("").to_string();
+        let f = kv(l);
+        if i == upto {
+            v::reset_write_count();
+            v::arm_crash_at(crash_at);
+        }
+        if op == "reopen" {
+            ctx.main.reopen();
+        } else if let Some((m, p)) = params_for(&ctx, &op, &f) {
+            let r = ctx.main.call(&m, p);
+            if err_class(&r) == "ok" {
+                on_accepted(&mut ctx, &op, &f, &r, &mut sink);
+            }
+        }
+        if i == upto {
+            break;
+        }
+    }
+    // not reached when the failpoint fired; a crash point beyond the last write is a clean exit
+    v::arm_crash_at(u64::MAX);
+}
+
+/// Suite X: for the commit / reorg ops of each case, the process is killed before persistent write i (child
+/// process, real abort), the directory is reopened, rolled back to a durable height inside the window, and compared
+/// with a fresh replay up to that height.
+pub fn exec_crash(lines: &[String], out: &mut Out, scratch: &Path, ops_file: &Path, exhaustive: bool) {
+    eng::configure("regtest", true);
+    let rt = eng::runtime();
+    let exe = std::env::current_exe().unwrap();
+    // split into cases
+    let mut cases: Vec<(String, Vec<String>)> = Vec::new();
+    for l in lines {
+        if l.starts_with("case ") {
+            cases.push((l.split(' ').nth(1).unwrap_or("?").to_string(), Vec::new()));
+        } else if let Some(c) = cases.last_mut() {
+            c.1.push(l.clone());
+        }
+    }
+    let mut n_inst = 0u64;
+    for (ci, (case, raw)) in cases.iter().enumerate() {
+        out.case(case);
+        let script = indexer_lines(raw);
+        // reference run: heights, last commit point, write counts of every commit / reorg
+        let main = new_inst(scratch, &mut n_inst, &rt);
+        let twin = new_inst(scratch, &mut n_inst, &rt);
+        let mut ctx = fresh_ctx(main, twin, &rt, scratch, n_inst, case);
+        let mut sink = Out::new(&scratch.join("sink"), "X.ref");
+        let mut committed: Option<u64> = None;         // height at the last completed commit (reorg commits too)
+        let mut min_target_since: Option<u64> = None;   // lowest reorg target attempted since
+        let mut max_ever: u64 = 0;
+        let mut points: Vec<(usize, u64, Option<u64>, u64, Option<u64>, Vec<(u64, String)>)> = Vec::new(); // (line, writes, committed before, max_ever, reorg target, durable history)
+        let mut blocks_of: Vec<u64> = Vec::new();       // block each line belongs to
+        let mut hist: Vec<(u64, String, bool)> = Vec::new(); // accepted ops: block, line, covered by a commit
+        for (i, l) in script.iter().enumerate() {
+            let op = l.split(' ').next().unwrap_or("").to_string();
+            let f = kv(l);
+            blocks_of.push(block_of(&ctx));
+            if op == "reopen" {
+                ctx.main.reopen();
+                ctx.height = latest_height(&ctx.main);
+                hist.retain(|h| h.2);
+                continue;
+            }
+            let Some((m, p)) = params_for(&ctx, &op, &f) else { continue };
+            v::reset_write_count();
+            let r = ctx.main.call(&m, p);
+            let writes = v::write_count();
+            if err_class(&r) != "ok" {
+                continue;
+            }
+            on_accepted(&mut ctx, &op, &f, &r, &mut sink);
+            let b_here = *blocks_of.last().unwrap();
+            if matches!(op.as_str(), "fin" | "mine" | "init" | "reorg" | "clear") {
+                ctx.height = latest_height(&ctx.main);
+                max_ever = max_ever.max(ctx.height.unwrap_or(0));
+            }
+            if op == "commit" || op == "reorg" {
+                let target = f.get("n").and_then(|s| s.parse::<u64>().ok());
+                let durable: Vec<(u64, String)> = hist.iter().filter(|h| h.2).map(|h| (h.0, h.1.clone())).collect();
+                points.push((i, writes, committed, max_ever, if op == "reorg" { target } else { None }, durable));
+                committed = ctx.height;
+                min_target_since = None;
+            }
+            match op.as_str() {
+                "commit" => hist.iter_mut().for_each(|h| h.2 = true),
+                "clear" => hist.retain(|h| h.2),
+                "reorg" => {
+                    let n = f.get("n").and_then(|s| s.parse::<u64>().ok()).unwrap_or(0);
+                    // a mine crossing n is cut
+                    let mut kept = Vec::new();
+                    for (b, l, _) in hist.drain(..) {
+                        if b > n {
+                            continue;
+                        }
+                        if l.starts_with("mine ") {
+                            let ff = kv(&l);
+                            let cnt: u64 = ff.get("count").and_then(|s| s.parse().ok()).unwrap_or(0);
+                            let cnt = if b + cnt.saturating_sub(1) > n { n + 1 - b } else { cnt };
+                            kept.push((b, format!("mine count={} ts={}", cnt, ff.get("ts").cloned().unwrap_or_default()), true));
+                        } else {
+                            kept.push((b, l, true));
+                        }
+                    }
+                    hist = kept;
+                }
+                _ => hist.push((b_here, l.clone(), false)),
+            }
+            let _ = min_target_since;
+        }
+        ctx.main.close();
+        ctx.twin.close();
+        // crash points
+        for (pi, (line_no, writes, committed_before, max_ever_then, reorg_target, durable)) in points.iter().enumerate() {
+            if *writes == 0 {
+                continue;
+            }
+            let idxs: Vec<u64> = if exhaustive || *writes <= 12 {
+                (0..*writes).collect()
+            } else {
+                let mut r = Rng::new(ci as u64 * 1000 + pi as u64);
+                let mut v: Vec<u64> = vec![0, 1, 2, *writes - 1, *writes / 2];
+                for _ in 0..6 {
+                    v.push(r.below(*writes));
+                }
+                v.sort();
+                v.dedup();
+                v
+            };
+            for i in idxs {
+                let dir = scratch.join(format!("crash-{}-{}-{}", ci, pi, i));
+                let _ = std::fs::remove_dir_all(&dir);
+                let status = std::process::Command::new(&exe)
+                    .args(["xchild", "X", "--ops", ops_file.to_str().unwrap(), "--case", case, "--upto", &line_no.to_string(), "--crash-at", &i.to_string(), "--dir", dir.to_str().unwrap()])
+                    .stdout(std::process::Stdio::null())
+                    .stderr(std::process::Stdio::null())
+                    .status();
+                let aborted = status.map(|s| !s.success()).unwrap_or(true);
+                out.count(if aborted { "crashed" } else { "no-crash" });
+                // reopen and roll back to a durable height inside the window
+                let durable_top = match (committed_before, reorg_target) {
+                    (Some(c), Some(t)) => Some((*c).min(*t)),
+                    (Some(c), None) => Some(*c),
+                    (None, _) => None,
+                };
+                let inst = Inst::open(&dir, rt.clone());
+                if let Some(top) = durable_top {
+                    let lo = max_ever_then.saturating_sub(W);
+                    let mut targets: Vec<u64> = vec![top];
+                    if top > lo {
+                        targets.push(lo.max(top.saturating_sub(1)));
+                    }
+                    targets.dedup();
+                    // only the first target is tried on this directory (a reorg changes it); the other on a copy
+                    let n = targets[(i as usize) % targets.len()];
+                    if n >= lo {
+                        let r = inst.call("brc20_reorg", json!([n]));
+                        if err_class(&r) != "ok" {
+                            out.oracle_fail(case, "crash-reorg-refused", &format!("after a crash before write {} of `{}`, reorg({}) answered {} (durable height {}, highest ever {})", i, script[*line_no], n, err_class(&r), top, max_ever_then));
+                        } else {
+                            // fresh replay up to n
+                            let fresh = new_inst(scratch, &mut n_inst, &rt);
+                            let mut ref_ctx = fresh_ctx(Inst::open(&scratch.join("unused-a"), rt.clone()), Inst::open(&scratch.join("unused-b"), rt.clone()), &rt, scratch, n_inst, case);
+                            ref_ctx.known_hashes = ctx.known_hashes.clone();
+                            ref_ctx.known_addrs = ctx.known_addrs.clone();
+                            ref_ctx.insc_of = ctx.insc_of.clone();
+                            ref_ctx.labels = ctx.labels.clone();
+                            for (b0, l) in durable.iter() {
+                                if *b0 > n {
+                                    continue;
+                                }
+                                let op = l.split(' ').next().unwrap_or("");
+                                let f = kv(l);
+                                if op == "mine" {
+                                    let cnt: u64 = f.get("count").and_then(|s| s.parse().ok()).unwrap_or(0);
+                                    let last = b0 + cnt.saturating_sub(1);
+                                    let cnt = if last > n { n + 1 - b0 } else { cnt };
+                                    let _ = fresh.call("brc20_mine", json!([cnt, f.get("ts").and_then(|s| s.parse::<u64>().ok()).unwrap_or(0)]));
+                                    continue;
+                                }
+                                if let Some((m, p)) = params_for(&ctx, op, &f) {
+                                    let _ = fresh.call(&m, p);
+                                }
+                            }
+                            let a = observation(&inst, &ref_ctx);
+                            let b = observation(&fresh, &ref_ctx);
+                            if let Some(d) = first_difference(&a, &b, "obs") {
+                                out.oracle_fail(case, "crash-not-recovered", &format!("crash before write {}/{} of `{}`, reopen, reorg({}): differs from a fresh replay up to {}: {}", i, writes, script[*line_no].chars().take(40).collect::<String>(), n, n, d));
+                            }
+                            out.count("recovered-compared");
+                            let mut fr = fresh;
+                            fr.close();
+                            let _ = std::fs::remove_dir_all(&fr.dir);
+                            ref_ctx.main.close();
+                            ref_ctx.twin.close();
+                        }
+                    }
+                }
+                let mut inst = inst;
+                inst.close();
+                let _ = std::fs::remove_dir_all(&dir);
+                let _ = std::fs::remove_dir_all(dir.with_extension("twin"));
+                let _ = std::fs::remove_dir_all(dir.with_extension("out"));
+            }
+        }
+        out.line(&format!("xcase {} points={}", case, points.len()), "done");
+    }
+    let _ = std::fs::remove_dir_all(scratch);
+}
